@@ -46,7 +46,7 @@ pub trait HasChildren: HasContext {
         // the order key moves only once the hierarchy / type checks of insert_by_id have accepted the node
         let value = self.insert_by_id(value, None)?;
         self.context().register(&value);
-        value.set_order_after(id);
+        value.place_subtree_after(id);
         Ok(value)
     }
 
@@ -77,7 +77,7 @@ pub trait HasChildren: HasContext {
         // the order key moves only once the hierarchy / type checks of insert_by_id have accepted the node
         let value = self.insert_by_id(value, Some(id))?;
         self.context().register(&value);
-        value.set_order_before(id);
+        value.place_subtree_before(id);
         Ok(value)
     }
 }
@@ -1492,7 +1492,7 @@ impl HasChildren for XmlDocument {
 
     fn last_child_or_self_id(&self) -> usize {
         if let Some(last) = self.children.borrow().iter().last() {
-            last.id()
+            last.last_descendant_or_self_id()
         } else {
             self.id()
         }
@@ -2070,8 +2070,12 @@ impl HasChildren for XmlElement {
     }
 
     fn last_child_or_self_id(&self) -> usize {
+        // the last item of the subtree in document order: the last descendant, for an element without children its
+        // last attribute (attributes precede children), else the element itself
         if let Some(last) = self.children.borrow().iter().last() {
-            last.id()
+            last.last_descendant_or_self_id()
+        } else if let Some(last) = self.attributes.iter().max_by_key(|v| v.order()) {
+            last.last_descendant_or_self_id()
         } else {
             self.id()
         }
@@ -2356,7 +2360,13 @@ impl XmlElement {
     }
 
     pub fn append_attribute(&mut self, attr: Rc<XmlItem>) {
-        attr.init_order_recursive();
+        // a new attribute belongs after the element's last attribute and before its first child
+        let id = if let Some(last) = self.attributes.iter().max_by_key(|v| v.order()) {
+            last.last_descendant_or_self_id()
+        } else {
+            self.id()
+        };
+        attr.place_subtree_after(id);
         self.attributes.push(attr);
     }
 
@@ -3140,6 +3150,93 @@ impl XmlItem {
             XmlItem::Unexpanded(v) => v.borrow().set_order_after(id),
             XmlItem::Unparsed(v) => v.borrow().entity().borrow().set_order_after(id),
         }
+    }
+
+    fn order(&self) -> usize {
+        match self {
+            XmlItem::Attribute(v) => v.borrow().order(),
+            XmlItem::CData(v) => v.borrow().order(),
+            XmlItem::CharReference(v) => v.borrow().order(),
+            XmlItem::Comment(v) => v.borrow().order(),
+            XmlItem::DeclarationAttList(v) => v.borrow().order(),
+            XmlItem::Document(v) => v.borrow().order(),
+            XmlItem::DocumentType(v) => v.borrow().order(),
+            XmlItem::Element(v) => v.borrow().order(),
+            XmlItem::Entity(v) => v.borrow().order(),
+            XmlItem::Namespace(v) => v.borrow().order(),
+            XmlItem::Notation(v) => v.borrow().order(),
+            XmlItem::PI(v) => v.borrow().order(),
+            XmlItem::Text(v) => v.borrow().order(),
+            XmlItem::Unexpanded(v) => v.borrow().order(),
+            XmlItem::Unparsed(v) => v.borrow().entity().borrow().order(),
+        }
+    }
+
+    /// The items directly below this one in document order: the attributes of an element (namespace declarations first,
+    /// as init_order_recursive numbers them) and then its children; the value items of an attribute; the children of a
+    /// document.
+    fn sub_items(&self) -> Vec<Rc<XmlItem>> {
+        match self {
+            XmlItem::Attribute(v) => v
+                .borrow()
+                .values
+                .borrow()
+                .iter()
+                .map(|v| match v {
+                    XmlAttributeValue::Char(i) => i.clone(),
+                    XmlAttributeValue::Entity(i) => i.clone(),
+                    XmlAttributeValue::Text(i) => i.clone(),
+                })
+                .collect(),
+            XmlItem::Document(v) => v.borrow().children.borrow().clone(),
+            XmlItem::Element(v) => {
+                let element = v.borrow();
+                let is_ns = |a: &Rc<XmlItem>| {
+                    a.as_attribute()
+                        .map(|a| a.borrow().namespace())
+                        .unwrap_or_default()
+                };
+                let mut items: Vec<Rc<XmlItem>> = vec![];
+                items.extend(element.attributes.iter().filter(|a| is_ns(a)).cloned());
+                items.extend(element.attributes.iter().filter(|a| !is_ns(a)).cloned());
+                items.extend(element.children.borrow().iter().cloned());
+                items
+            }
+            _ => vec![],
+        }
+    }
+
+    /// The id of the last item, in document order, of the subtree rooted here (the item itself if nothing is below it).
+    fn last_descendant_or_self_id(&self) -> usize {
+        match self.sub_items().last() {
+            Some(last) => last.last_descendant_or_self_id(),
+            None => self.id(),
+        }
+    }
+
+    /// Gives everything below this item consecutive document-order keys directly after the item's own key;
+    /// returns the id of the last item placed.
+    fn place_descendants(&self) -> usize {
+        let mut last = self.id();
+        for sub in self.sub_items() {
+            sub.set_order_after(last);
+            last = sub.place_descendants();
+        }
+        last
+    }
+
+    /// Moves the key of this item directly after item `id` and the keys of everything below it along with it
+    /// (a subtree occupies consecutive positions in document order).
+    fn place_subtree_after(&self, id: usize) -> Option<usize> {
+        let placed = self.set_order_after(id);
+        self.place_descendants();
+        placed
+    }
+
+    fn place_subtree_before(&self, id: usize) -> Option<usize> {
+        let placed = self.set_order_before(id);
+        self.place_descendants();
+        placed
     }
 
     fn set_order_before(&self, id: usize) -> Option<usize> {
